@@ -392,6 +392,7 @@ DER = z3.Function('pub_der', IntSort, BytesSort)
 KID_OF = z3.Function('kid_of_der', BytesSort, IntSort)
 SIGNED = z3.Function('signed', IntSort, BytesSort, BoolSort)
 SIG = z3.Function('sig', IntSort, BytesSort, IntSort, BytesSort)       # kid, data, nonce -> signature
+DER_VALID = z3.Function('der_is_a_public_key', BytesSort, BoolSort)     # fromBytes accepts exactly these; getBytes produces one
 SIG_OK = z3.Function('sig_verifies', IntSort, BytesSort, BytesSort, BoolSort)   # kid, signature, data
 DH = z3.Function('dh', IntSort, IntSort, IntSort)
 KDF = z3.Function('hkdf16', IntSort, BytesSort, BytesSort)
@@ -438,7 +439,7 @@ def _pub_getbytes(ip, self):
     used(ip, KEY_NOTE)
     k = ops.term(self.attrs['kid'], 'int')
     t = DER(k)
-    ip.ctx.assume(z3.And(z3.Length(t) == 91, KID_OF(t) == k))
+    ip.ctx.assume(z3.And(z3.Length(t) == 91, KID_OF(t) == k, DER_VALID(t)))
     ops.set_len(t, 91)
     return Sym(t, 'bytes')
 
@@ -448,9 +449,9 @@ def _pub_frombytes(ip, der):
     used(ip, KEY_NOTE)
     if ops.pytype(der) != 'bytes':
         ip.ctx.raise_exc('TypeError', 'fromBytes argument')
-    if ip.ctx.choose(2) == 1:
-        ip.ctx.raise_exc('ValueError', 'could not deserialize key data')
     d = ops.term(der)
+    if not ip.ctx.branch(ops.sbool(DER_VALID(d))):
+        ip.ctx.raise_exc('ValueError', 'could not deserialize key data')
     k = KID_OF(d)
     ip.ctx.assume(DER(k) == d)
     return mk_pub(ip, Sym(k, 'int'))
@@ -463,7 +464,10 @@ def _priv_sign(ip, self, data):
     d = ops.term(data)
     nonce = ip.ctx.fresh('sig_nonce', IntSort)
     s = SIG(k, d, nonce)
-    ip.ctx.assume(z3.And(SIGNED(k, d), SIG_OK(k, s, d), ops.blen(s) >= 8, ops.blen(s) <= 72))
+    n = ip.ctx.fresh('sig_len', IntSort)          # companion length (DER ECDSA signatures: 8..72 bytes)
+    ops.set_len_term(s, n)
+    ops.declare_bounds(n, 8, 72)
+    ip.ctx.assume(z3.And(SIGNED(k, d), SIG_OK(k, s, d), n >= 8, n <= 72))
     ip.state.events.append(('sign', (self.attrs['kid'], data), {}))
     return Sym(s, 'bytes')
 
